@@ -508,9 +508,12 @@ class ModelBuilder:
             rec.exc = type(e).__name__
             self._append(rec)
             raise
+        # the parent directories are reserved for this target from here on
+        st.inprog.add(path)
         served, res = mb._lookup(key, fname, args, kwargs, True)
         if served is not None:
             mb.st = st = res
+            st.inprog.discard(path)
             rec.status = 'ok'
             rec.ret = served.ret
             rec.subs = served.subs
